@@ -33,20 +33,22 @@ pass the 424 tests, and need something specific to manifest, with a demonstratio
 here in a fresh scratch worktree (`tools/seeded.py`), then applied to `/repo`, the property's quick
 check run, and undone (`tools/try_patch.py`). Kept under `/verif/seeded/<name>/` (`patch.diff`, `demo/`,
 `meta.json`). %d changes, %d caught by the quick tier as it stands now. The last column says what
-had to be strengthened for changes the checks missed at first. Three full rounds and a fourth on fifteen properties were run (m1/m2, m3/m4,
+had to be strengthened for changes the checks missed at first. Four rounds were run (m1/m2, m3/m4,
 m5/m6, m7/m8 per property; later rounds were told the titles of the earlier changes and asked for harder
 ones, in particular for interactions between the event-loop glue and the core): the quick tier
-missed 8 of 40 in round 1, 14 of 41 in round 2, 15 of 41 in round 3 and 16 of 29 in round 4 before it was
-strengthened; three round-4 changes are still not caught and are kept as such (`C10-m8`, `C19-m8`,
-`C20-m8`: their `meta.json` and the last column say why - process start-up wiring, wall-clock slowness
-inside a synchronous call, tokio's multi-threaded scheduler) -
+missed 8 of 40 in round 1, 14 of 41 in round 2, 15 of 41 in round 3 and 21 of 39 in round 4 before it was
+strengthened; four round-4 changes are still not caught and are kept as such (`C10-m8`, `C12-m7`,
+`C19-m8`, `C20-m8`: their `meta.json` and the last column say why - process start-up wiring, a
+one-event-stale snapshot in the real loop's packet arm, wall-clock slowness inside a synchronous call,
+tokio's multi-threaded scheduler) -
 new engines (W for eight more properties, S, X, R), new fault kinds (lost REG2 replies, client re-bind,
 bind failures and a stalled subscriber on the real loop, a stalled reader with large events on the
 control socket, deep bursts), and monitors made independent of implementation state they had been
 reading back (established flag, probe flag, packet log, hysteresis anchor, attempt stamp). The
 rounds also led to two of the findings of §A.3 (the control socket's `read_line`, the handshake-slot
 starvation). Changes that break a neighbouring property by the letter rather than the one they were
-written for are filed under the property they break (`C05-m5`, `C05-m8`); one change was dropped
+written for are filed under the property they break (`C05-m5`, `C05-m8`) or keep their name and say which neighbouring
+check catches them (`C04-m8`, `C06-m8`, `C15-m7`); one change was dropped
 because a `fix:` commit rewrote its site (§A.5).
 
 ''' % (len(rows), sum(1 for r in rows if '| MISSED |' not in r))
